@@ -669,10 +669,15 @@ class DCMotor(MotorBase):
                         self.no_load_electric_current)
                 )
 
+        if maximum_torque.value == 0:
+            load_factor = 0
+        else:
+            load_factor = self.driving_torque/maximum_torque
+
         self.electric_current = Current(
             value=(
                 (maximum_electric_current - no_load_electric_current) *
-                (self.driving_torque/maximum_torque) + no_load_electric_current
+                load_factor + no_load_electric_current
             ).value,
             unit=self.maximum_electric_current.unit
         )
